@@ -39,31 +39,63 @@ import (
 type vc09RW struct {
 	local, remote net.Addr
 	written       []*dns.Msg
+	writeErr      error
+	attempts      int
 }
 
 func (w *vc09RW) LocalAddr() net.Addr  { return w.local }
 func (w *vc09RW) RemoteAddr() net.Addr { return w.remote }
 func (w *vc09RW) WriteMsg(_ context.Context, _, resp *dns.Msg) error {
+	w.attempts++
+	if w.writeErr != nil {
+		return w.writeErr
+	}
+
 	w.written = append(w.written, resp)
 
 	return nil
 }
 
-func vc09Req(qt uint16) *dns.Msg {
-	return &dns.Msg{
+// vc09Req builds a query; pad > 0 adds an EDNS(0) padding option of that many
+// octets, so that the request can be larger than its response.
+func vc09Req(qt uint16, pad int) (req *dns.Msg) {
+	req = &dns.Msg{
 		MsgHdr:   dns.MsgHdr{Id: 9, RecursionDesired: true},
 		Question: []dns.Question{{Name: "c09.example.", Qtype: qt, Qclass: dns.ClassINET}},
 	}
+	if pad > 0 {
+		opt := &dns.OPT{Hdr: dns.RR_Header{Name: ".", Rrtype: dns.TypeOPT}}
+		opt.SetUDPSize(1232)
+		opt.Option = append(opt.Option, &dns.EDNS0_PADDING{Padding: make([]byte, pad)})
+		req.Extra = append(req.Extra, opt)
+	}
+
+	return req
 }
 
+// vc09Resp builds a response to req (question copied, no OPT) whose Msg.Len
+// is exactly size whenever size is at least 26 octets above the bare reply.
 func vc09Resp(req *dns.Msg, size int) (resp *dns.Msg) {
 	resp = (&dns.Msg{}).SetReply(req)
+	if resp.Len() >= size {
+		return resp
+	}
+
+	txt := &dns.TXT{
+		Hdr: dns.RR_Header{Name: req.Question[0].Name, Rrtype: dns.TypeTXT, Class: dns.ClassINET, Ttl: 10},
+		Txt: []string{""},
+	}
+	resp.Answer = append(resp.Answer, txt)
 	for resp.Len() < size {
-		pad := min(size-resp.Len(), 200)
-		resp.Answer = append(resp.Answer, &dns.TXT{
-			Hdr: dns.RR_Header{Name: req.Question[0].Name, Rrtype: dns.TypeTXT, Class: dns.ClassINET, Ttl: 10},
-			Txt: []string{strings.Repeat("x", pad)},
-		})
+		last := len(txt.Txt) - 1
+		room := 255 - len(txt.Txt[last])
+		if room == 0 {
+			txt.Txt = append(txt.Txt, "")
+
+			continue
+		}
+
+		txt.Txt[last] += strings.Repeat("x", min(room, size-resp.Len()))
 	}
 
 	return resp
@@ -148,6 +180,11 @@ func vc09Profile(id string, rl agd.Ratelimiter) *agd.DeviceResultOK {
 // vc09Env builds the middleware for server protocol proto; *res is what the
 // device finder returns for the next request.
 func vc09Env(msgs *dnsmsg.Constructor, proto agd.Protocol, lim ratelimit.Interface, res *agd.DeviceResult) *ratelimitmw.Middleware {
+	return vc09EnvFinder(msgs, proto, lim, func(netip.AddrPort) agd.DeviceResult { return *res })
+}
+
+// vc09EnvFinder is vc09Env with a device finder that answers by client address.
+func vc09EnvFinder(msgs *dnsmsg.Constructor, proto agd.Protocol, lim ratelimit.Interface, find func(raddr netip.AddrPort) agd.DeviceResult) *ratelimitmw.Middleware {
 	geo := agdtest.NewGeoIP()
 	geo.OnData = func(_ string, _ netip.Addr) (*geoip.Location, error) { return nil, nil }
 
@@ -163,7 +200,7 @@ func vc09Env(msgs *dnsmsg.Constructor, proto agd.Protocol, lim ratelimit.Interfa
 			OnIsBlockedIP:   func(netip.Addr) bool { return false },
 		},
 		DeviceFinder: &agdtest.DeviceFinder{
-			OnFind: func(context.Context, *dns.Msg, netip.AddrPort, netip.AddrPort) agd.DeviceResult { return *res },
+			OnFind: func(_ context.Context, _ *dns.Msg, raddr, _ netip.AddrPort) agd.DeviceResult { return find(raddr) },
 		},
 		ErrColl: agdtest.NewErrorCollector(),
 		GeoIP:   geo,
@@ -181,6 +218,8 @@ var (
 		netip.MustParseAddr("192.0.2.77"), netip.MustParseAddr("192.0.2.78"), netip.MustParseAddr("192.0.3.77"),
 		netip.MustParseAddr("198.51.100.1"), netip.MustParseAddr("203.0.113.254"),
 		netip.MustParseAddr("2001:db8:0:1::1"), netip.MustParseAddr("2001:db8:0:1::2"), netip.MustParseAddr("2001:db8:0:2::1"),
+		// In 192.0.2.0/24 but outside 192.0.2.0/25; one address below 192.0.2.77.
+		netip.MustParseAddr("192.0.2.205"), netip.MustParseAddr("192.0.2.76"),
 	}
 )
 
@@ -203,7 +242,7 @@ func vc09Remote(ip netip.Addr, port int, form int) net.Addr {
 func TestVerifC09MwScripted(t *testing.T) {
 	st := vstat.New("C09", "ratelimitmw.scripted",
 		"rapid (server protocol x client address/port x profile {none, own limiter scripted pass/drop/use-global, GlobalRatelimiter} x scripted global verdict x scripted next handler) through ratelimitmw.Middleware.Wrap; oracle = decision table of the statement; non-trivial = plain-DNS query for which a limiter was consulted, distinct by the tuple",
-		"global-drop-silent", "global-allowlisted", "global-pass-counted", "profile-drop-silent", "profile-pass-counted-by-profile", "profile-use-global", "proto-not-limited", "port0-spoof", "limiter-error", "next-error", "pass-no-response")
+		"global-drop-silent", "global-allowlisted", "global-pass-counted", "profile-drop-silent", "profile-pass-counted-by-profile", "profile-use-global", "proto-not-limited", "port0-spoof", "limiter-error", "next-error", "pass-no-response", "write-error", "request-larger-than-response")
 	st.Finish(t)
 
 	msgs := agdtest.NewConstructor(t)
@@ -240,7 +279,12 @@ func TestVerifC09MwScripted(t *testing.T) {
 
 		mw := vc09Env(msgs, proto, glob, &res)
 		rw := &vc09RW{local: &net.UDPAddr{IP: net.IP{127, 0, 0, 1}, Port: 53}, remote: vc09Remote(ip, port, rapid.IntRange(0, 3).Draw(t, "form"))}
-		req := vc09Req(rapid.SampledFrom([]uint16{dns.TypeA, dns.TypeAAAA, dns.TypeANY, dns.TypeTXT}).Draw(t, "qtype"))
+		if rapid.IntRange(0, 7).Draw(t, "writeErr") == 0 {
+			rw.writeErr = errors.New("scripted write error")
+		}
+
+		req := vc09Req(rapid.SampledFrom([]uint16{dns.TypeA, dns.TypeAAAA, dns.TypeANY, dns.TypeTXT}).Draw(t, "qtype"),
+			rapid.SampledFrom([]int{0, 0, 300, 1500}).Draw(t, "reqPad"))
 		gotErr := mw.Wrap(next).ServeDNS(context.Background(), rw, req)
 
 		var pAsked, pCounted []netip.Addr
@@ -248,12 +292,13 @@ func TestVerifC09MwScripted(t *testing.T) {
 			pAsked, pCounted = prof.asked, prof.counted
 		}
 
-		in := fmt.Sprintf("server=%v remote=%s profile=%s global={drop:%t allow:%t err:%v} next={respSize:%d err:%v}",
-			proto, rw.remote, profKind, glob.drop, glob.allow, glob.err, next.respSize, next.err)
+		in := fmt.Sprintf("server=%v remote=%s profile=%s global={drop:%t allow:%t err:%v} next={respSize:%d err:%v} reqLen=%d writeErr=%v",
+			proto, rw.remote, profKind, glob.drop, glob.allow, glob.err, next.respSize, next.err, req.Len(), rw.writeErr)
 		desc := fmt.Sprintf("%s: got err=%v next.calls=%d written=%d global.asked=%v global.counted=%v profile.asked=%v profile.counted=%v",
 			in, gotErr, next.calls, len(rw.written), glob.asked, glob.counted, pAsked, pCounted)
 		fail := func(f string, a ...any) { t.Fatalf("%s\n%s", fmt.Sprintf(f, a...), desc) }
 
+		reqLarger := false
 		expectNext := func() {
 			if next.calls != 1 {
 				fail("next handler must be called exactly once")
@@ -270,6 +315,14 @@ func TestVerifC09MwScripted(t *testing.T) {
 			want := 0
 			if next.respSize >= 0 {
 				want = 1
+			}
+
+			if want == 1 && rw.writeErr != nil {
+				if !errors.Is(gotErr, rw.writeErr) || rw.attempts != 1 {
+					fail("the client writer's error must be returned after exactly one attempt")
+				}
+
+				return
 			}
 
 			if gotErr != nil || len(rw.written) != want || (want == 1 && rw.written[0] != next.lastResp) {
@@ -291,7 +344,11 @@ func TestVerifC09MwScripted(t *testing.T) {
 			}
 
 			if len(ips) != 1 || ips[0] != ip || lens[0] != next.lastResp.Len() {
-				fail("the response must be counted exactly once by the %s limiter for %s", who, ip)
+				fail("the response must be counted exactly once by the %s limiter for %s, with the response's own size", who, ip)
+			}
+
+			if req.Len() > next.lastResp.Len() {
+				reqLarger = true
 			}
 		}
 
@@ -384,6 +441,14 @@ func TestVerifC09MwScripted(t *testing.T) {
 
 		if next.calls > 0 && next.err == nil && next.respSize < 0 {
 			cls = append(cls, "pass-no-response")
+		}
+
+		if reqLarger {
+			cls = append(cls, "request-larger-than-response")
+		}
+
+		if rw.writeErr != nil && rw.attempts > 0 {
+			cls = append(cls, "write-error")
 		}
 
 		st.Case(nt, cls...)
@@ -479,7 +544,7 @@ func (p *vc09ProfModel) applies(ip netip.Addr) bool {
 func TestVerifC09MwReal(t *testing.T) {
 	st := vstat.New("C09", "ratelimitmw.real",
 		"rapid histories of queries (client address, qtype, profile {none, own limit with/without client subnets, GlobalRatelimiter}, handler response size) through ratelimitmw.Middleware with a real ratelimit.Backoff (1 h intervals) and real agd.DefaultRatelimiter profiles (1 s window; a case that takes longer than 0.8 s of real time is discarded unjudged); oracle = per-subnet counter model for the global limit, per-profile counter model for own limits, on what the client observes; non-trivial = a query got no response and a later one did, distinct by (config, history)",
-		"silence-then-later-response", "global-dropped", "profile-dropped", "profile-limit-while-global-would-drop", "profile-outside-client-subnets-uses-global", "profile-large-response-counted", "global-large-response-counted", "allowlisted-pass", "any-refused")
+		"silence-then-later-response", "global-dropped", "profile-dropped", "profile-limit-while-global-would-drop", "profile-outside-client-subnets-uses-global", "profile-large-response-counted", "global-large-response-counted", "request-weighs-more-than-response", "response-exactly-estimate", "profile-near-miss-outside-client-subnets", "allowlisted-pass", "any-refused")
 	st.Finish(t)
 
 	msgs := agdtest.NewConstructor(t)
@@ -519,10 +584,14 @@ func TestVerifC09MwReal(t *testing.T) {
 
 		// Profiles: A limits only its client subnets, B limits everyone, G defers
 		// to the global limit.
-		subnetsA := []netip.Prefix{netip.MustParsePrefix("192.0.2.0/24"), netip.MustParsePrefix("2001:db8:0:1::/64")}
-		if rapid.Bool().Draw(t, "narrowA") {
-			subnetsA = []netip.Prefix{netip.MustParsePrefix("192.0.2.77/32")}
-		}
+		subnetsA := rapid.SampledFrom([][]netip.Prefix{
+			{netip.MustParsePrefix("192.0.2.0/24"), netip.MustParsePrefix("2001:db8:0:1::/64")},
+			{netip.MustParsePrefix("192.0.2.77/32")},
+			// Unaligned, not masked, overlapping: .76 and .77 are in 192.0.2.76/31,
+			// .78 only in the /25, .205 in neither.
+			{netip.MustParsePrefix("192.0.2.77/31"), netip.MustParsePrefix("192.0.2.1/25")},
+			{netip.MustParsePrefix("192.0.2.77/31"), netip.MustParsePrefix("2001:db8:0:1::1/128")},
+		}).Draw(t, "subnetsA")
 
 		profs := map[string]*vc09ProfModel{
 			"A": {name: "A", rps: uint32(rapid.IntRange(0, 4).Draw(t, "rpsA")), subnets: subnetsA},
@@ -547,7 +616,7 @@ func TestVerifC09MwReal(t *testing.T) {
 		sawSilence, nontrivial := false, false
 		steps := rapid.IntRange(3, 30).Draw(t, "steps")
 		for i := 0; i < steps; i++ {
-			ip := rapid.SampledFrom(vc09IPs[:7]).Draw(t, "ip")
+			ip := rapid.SampledFrom(vc09IPs).Draw(t, "ip")
 			if rapid.IntRange(0, 2).Draw(t, "hotIP") == 0 {
 				ip = vc09IPs[0]
 			}
@@ -558,9 +627,9 @@ func TestVerifC09MwReal(t *testing.T) {
 			next := &vc09Next{respSize: rapid.SampledFrom([]int{0, 0, 0, e - 1, e, 2 * e, 3*e + 1}).Draw(t, "respSize")}
 			res = results[who]
 			rw := &vc09RW{local: &net.UDPAddr{IP: net.IP{127, 0, 0, 1}, Port: 53}, remote: vc09Remote(ip, 5353, rapid.IntRange(0, 3).Draw(t, "form"))}
-			req := vc09Req(qt)
+			req := vc09Req(qt, rapid.SampledFrom([]int{0, 0, 0, e, 3 * e}).Draw(t, "reqPad"))
 			err := mw.Wrap(next).ServeDNS(context.Background(), rw, req)
-			lines = append(lines, fmt.Sprintf("%2d query %s qtype=%d profile=%s handler-respsize=%d -> next.calls=%d responses=%d err=%v", i, ip, qt, who, next.respSize, next.calls, len(rw.written), err))
+			lines = append(lines, fmt.Sprintf("%2d query %s qtype=%d reqlen=%d profile=%s handler-respsize=%d -> next.calls=%d responses=%d err=%v", i, ip, qt, req.Len(), who, next.respSize, next.calls, len(rw.written), err))
 			if time.Since(start) > 800*time.Millisecond {
 				// The profile window is one real second; nothing can be said.
 				st.Class("discarded-too-slow")
@@ -574,6 +643,13 @@ func TestVerifC09MwReal(t *testing.T) {
 
 			respLen := vc09Resp(req, next.respSize).Len()
 			extra := respLen / int(c.Est)
+			if req.Len()/int(c.Est) > extra {
+				classes["request-weighs-more-than-response"] = true
+			}
+
+			if respLen%int(c.Est) == 0 {
+				classes["response-exactly-estimate"] = true
+			}
 
 			var wantDrop bool
 			var why string
@@ -610,6 +686,10 @@ func TestVerifC09MwReal(t *testing.T) {
 			} else {
 				if p != nil {
 					classes["profile-outside-client-subnets-uses-global"] = true
+					if ip == netip.MustParseAddr("192.0.2.78") || ip == netip.MustParseAddr("192.0.2.205") || ip == netip.MustParseAddr("192.0.2.76") {
+						// Same /24 as a client subnet of the profile, but not in it.
+						classes["profile-near-miss-outside-client-subnets"] = true
+					}
 				}
 
 				var allow bool
